@@ -165,7 +165,7 @@ fn desc_key(desc: &str) -> String {
     let d = d.split(" = ").next().unwrap_or(d);
     let d = d.split(", ").next().unwrap_or(d);
     let mut out = String::new();
-    for c in d.chars().take(60) { if c.is_ascii_digit() { if !out.ends_with('N') { out.push('N'); } } else { out.push(c); } }
+    for c in d.chars().take(60) { if c.is_ascii_digit() { if out.ends_with('-') { out.pop(); } if !out.ends_with('N') { out.push('N'); } } else { out.push(c); } }
     out
 }
 
@@ -728,6 +728,13 @@ fn lit_cases(key: &str) -> Vec<Case> {
         let src = t.wrap("").replacen(needle, &new, 1);
         out.push(Case::new(t.tool(), src, &[&test_map(t.kind)], format!("{key}: metadata `{field}` = {l}")));
     } }
+    if t.kind == Kind::Msg || t.kind == Kind::End {
+        // integer table keys that denote the same number in different spellings (DESIGN section 5, row 15)
+        for dup in ["0", "00", "0x0", "0b0", "-0", "+0", "4294967296", "4294967295", "default", "Default", "0 ", "0.0"] {
+            let src = t.wrap("").replacen("}},", &format!("}}, {dup}: {{script: \"main\"}}}},"), 1);
+            out.push(Case::new(t.tool(), src, &[&test_map(t.kind)], format!("{key}: second table key `{dup}` next to `0`")));
+        }
+    }
     if t.key == "msg12" { for (l, x) in meta_values() {
         out.push(Case::new(t.tool(), t.wrap("").replacen("table: {", &format!("table_len: {x},\n    table: {{"), 1), &[], format!("{key}: metadata `table_len` = {l}")));
         out.push(Case::new(t.tool(), t.wrap("").replacen("flags: 256", &format!("flags: {x}"), 1), &[], format!("{key}: metadata `flags` = {l}")));
@@ -1301,7 +1308,7 @@ pub fn run(tier: &str) -> Report {
     if not_run > 0 { rep.cap_hit = Some(format!("wall cap: {not_run} of {} items not run", all_items.len())); }
     rep.exhaustive = not_run == 0 && only.is_none();
     rep.bound_completed = format!("{} items ({}); families: {}", all_items.len() - not_run,
-        if thorough { "thorough: all token ops x all replacement tokens, every byte offset, nesting to 4096" } else { "quick: token delete + 12 replacements, every 3rd byte offset, nesting to 256" },
+        if thorough { "thorough: all token ops x all replacement tokens + token-pair deletions, every byte offset of every seed, nesting to 4096 (beyond 256: information only), all fault pairs and two-level contexts, signature strings to length 3" } else { "quick: token delete/duplicate/swap + 12 replacement tokens, every 3rd byte offset of the 10 smallest seeds, nesting to 256, core x core fault pairs" },
         fam_counts.iter().map(|(k, v)| format!("{k}={}", v.1)).collect::<Vec<_>>().join(" "));
     rep.assumptions = vec![
         "in-process driver (drive::compile) mirrors cli_def::*_compile::run; `#pragma mapfile`/image sources are not followed".into(),
